@@ -27,11 +27,12 @@ def base_family(rng):
     cargs = rng.choice([None, 1, 2, -1, 3, 'a', 'tup', 'pairs'])
     cargs = {'tup': [0, 2], 'pairs': [['a', 1]]}.get(cargs, cargs)        # JSON lists are tuples
 
-    def mk(parts_ids, fx=None, carg=cargs, wire=None, fx_part=0):
+    def mk(parts_ids, fx=None, carg=cargs, wire=None, fx_part=0, bv=False):
         parts = []
         for j, ids in enumerate(parts_ids):
             src = {'k': 'source', 'cls': f'P{j}', 'ids': ids,
-                   'fields': {'x': {'args': ['i'], 'f': (fx if (fx and j == fx_part) else 'P.x') if rng_same else (fx if (fx and j == fx_part) else f'P{j}.x')},
+                   'fields': {'x': {'args': ['i'], 'f': (fx if (fx and j == fx_part) else 'P.x') if rng_same else (fx if (fx and j == fx_part) else f'P{j}.x'),
+                                    **({'byvalue': True} if (bv and j == fx_part) else {})},
                               'y': {'args': ['i'], 'f': f'P{j}.y'},
                               'kk': {'args': ['i'], 'f': 'P.kk', 'table': [[[i], 'g'] for i in IDS + ['zz']]}},
                    'params': {}, 'cargs': {}, 'defaults': {}}
@@ -77,14 +78,31 @@ def base_family(rng):
             '[["a", 1]]': {'d': [['a'], [1]]}}[ck]))
     variants.append(('predicate-args',) + mk(parts_ids, wire=['y']))
     variants.append(('predicate-args2',) + mk(parts_ids, wire=['x', 'y']))
+    # a hash_by_value field computed by two DIFFERENT local closures of one factory: equal module and qualified name, other captured
+    # constant (pickled by value).  The static hash must tell them apart
+    variants.append(('byvalue-twin-a',) + mk(parts_ids, fx='TW.a', bv=True))
+    variants.append(('byvalue-twin-b',) + mk(parts_ids, fx='TW.b', bv=True))
     variants.append(('same',) + mk(parts_ids))        # a rebuild: must agree with `base`
     return variants
+
+
+def _twin(tag):
+    """local closures of one factory: the same `__module__` and `__qualname__`, another captured constant"""
+    from .sym import App
+
+    def x(i):
+        return App(tag, (i,), ())
+    return x
 
 
 def run_family(seed):
     rng = random.Random(seed)
     variants = base_family(rng)
     world = SymWorld()
+    for tag in ('TW.a', 'TW.b'):
+        f = _twin(tag)
+        world.fns[(tag, ('i',))] = f
+        world.names[id(f)] = tag
     b = Builder(world)
     b.shared = {}
     paths.use_repo()
